@@ -151,6 +151,18 @@ func oracle(r *h.Run, sc *scenario, ba *builtArchive, fp *footprint, declared ma
 			r.Count("observation:success-with-more-listed-entries-than-max-file-count(directories are counted but not checked)")
 		}
 	}
+	// (5) ... and only such an archive: an honest archive that stays within every limit (counting as the code documents it:
+	// every recorded entry, directories included; the archives themselves are files too) is not refused as 'too large'
+	if fp.Clean && o.Kind == "toolarge" {
+		fits := fp.Total <= l.MaxTotal && fp.Entries <= l.MaxCount && (l.MaxDepth < 0 || fp.MaxDepth <= l.MaxDepth)
+		for _, s := range append(append([]int64{}, fp.Sizes...), fp.ArchSizes...) {
+			fits = fits && s <= l.MaxFile
+		}
+		if fits {
+			r.Fail("refused-although-within-limits:"+mode, fmt.Sprintf("honest archive within every limit (total %d B <= %d, %d entries <= %d, largest file/archive <= %d B, depth %d vs %d) was refused as 'too large': %s",
+				fp.Total, l.MaxTotal, fp.Entries, l.MaxCount, l.MaxFile, fp.MaxDepth, l.MaxDepth, o.Err), sc)
+		}
+	}
 	// (4) an archive that would exceed a limit is refused with the 'too large' kind
 	if fp.Clean {
 		var why []string
